@@ -358,8 +358,17 @@ def r4_algebra(repo: Repo, rep):
     fi = base.methods.get("__len__")
     rep.saw(fi)
     ps_ = paths(fi.node)
-    rets = [(dump(p.ret) if p.ret is not RAISE else "RAISE") for p in ps_]
-    rep.check(R, rets == ["self.length", "self.n_points", "RAISE"], fi.site(), fi.fq, "__len__: length if set, else n_points, else ValueError", str(rets), str(rets))
+    table = {}
+    for p in ps_:
+        g = {dump(x): pol for x, pol, k in p.guards if k == "if"}
+        has_len = g.get("self.length is None") is False or g.get("self.length") is True
+        no_len = g.get("self.length is None") is True or g.get("self.length") is False
+        has_n = g.get("self.n_points is None") is False or g.get("self.n_points") is True
+        no_n = g.get("self.n_points is None") is True or g.get("self.n_points") is False
+        key = "length set" if has_len else ("length unset, n_points set" if no_len and has_n else ("neither set" if no_len and no_n else f"guards {sorted(g.items())}"))
+        table[key] = dump(p.ret) if p.ret is not RAISE else "RAISE"
+    want_t = {"length set": "self.length", "length unset, n_points set": "self.n_points", "neither set": "RAISE"}
+    rep.check(R, table == want_t, fi.site(), fi.fq, "__len__: length if set, else n_points, else ValueError", str(table), str(sorted(table.items())))
     fi = base.methods.get("_cut_tensor_to_length_n")
     if fi is not None:
         rep.saw(fi)
